@@ -27,13 +27,17 @@ def fetchRefs (env : Env W HS) : List String → M W HS Unit
   | x :: xs => do fetchRef env x; fetchRefs env xs
 
 /-- parameters are bound by the call; the handler sees each of them in order -/
-def paramHooks (env : Env W HS) : List Param → M W HS Unit
-  | [] => pure ()
-  | p :: ps => do
+def paramHook (env : Env W HS) (p : Param) : M W HS Unit :=
+  match env.hk with
+  | none => pure ()
+  | some _ => do
     let v ← lookup env p.name
     let r ← hook env p.name p.ann v
     setLoc p.name (some r)
-    paramHooks env ps
+
+def paramHooks (env : Env W HS) : List Param → M W HS Unit
+  | [] => pure ()
+  | p :: ps => do paramHook env p; paramHooks env ps
 
 def bodyWithReturn (f : FunDef) : List Stmt :=
   match hoistB f.body with
@@ -85,6 +89,6 @@ def scopeRef (cfg : Cfg) (f : FunDef) : String → Bool := fun x =>
 
 /-- … and in the rewritten function: every global it reads, ptera's frame and temporaries -/
 def scopeInstr (f : FunDef) : String → Bool := fun x =>
-  (collect f).assigned.contains x || (collect f).external.contains x || x == nFrame || x == "#error" || isTemp x
+  (collect f).assigned.contains x || (collect f).external.contains x || x == "#error" || isTemp x
 
 end Ptera.Sem
